@@ -32,7 +32,9 @@ func init() {
 			"consecutive from 0 with PrimitiveCount*3 and preceded by the usemtl of their own entry; BASE-1 — the base added to vt/vn references advances per mesh only by the " +
 			"number of vt/vn records that mesh emitted; GROUP-1 — one g line per mesh carrying its name. Material identity (every function of formats/obj): ORD-2 — no address of a " +
 			"per-loop variable (go directive < 1.22) is kept beyond the iteration; MAT-3 — name-table insertions store, under key k, a pointer to the material named k (element address, " +
-			"per-iteration object), and list[j].Material = table[k] takes k from entry j itself. Not decided: float formatting/precision, material attribute " +
+			"per-iteration object), and list[j].Material = table[k] takes k from entry j itself. ENTRY-1 — record typestate of the txt.Writer (every FinishEntry has its StartEntry, tokens only " +
+			"inside an open entry), helpers/closures inlined; SINK-1 — after a buffering wrapper is created over a destination every byte goes through it and it is flushed; NAME-2 — the " +
+			"scanner's line reaches the tokeniser uncut and names are all fields after the keyword. Not decided: float formatting/precision, material attribute " +
 			"fidelity (names with spaces, .mtl contents), n-gons, negative indices, what happens to triangles outside every material range.",
 		Controls: controls,
 		Run:      run,
@@ -91,6 +93,7 @@ func run(c *props.Ctx) {
 	}
 	x.txt1()
 	x.identRules()
+	x.ioRules()
 	c.R.Extra["functions_analysed"] = n + 9
 
 	// controls
@@ -101,7 +104,7 @@ func run(c *props.Ctx) {
 	// vacuity floors: a bit under what was confirmed by hand on the pinned tree
 	// (and under what the behaviour-preserving refactors of REPORT.md produce)
 	for rule, n := range map[string]int{"MAT-1": 5, "FACE-1": 1, "OWN-2": 4, "AXIS-3": 3, "BASE-1": 2, "CORNER-R": 2, "FORM-1": 1, "GROUP-1": 1,
-		"GROUP-R": 2, "IDX-1": 2, "IDX-3": 1, "MAT-2": 1, "ONE-W": 1, "STREAM-R": 5, "STREAM-W": 2, "TOK-R": 3, "TOK-W": 1, "TXT-1": 8, "USEMTL-R": 1, "ORD-2": 8, "MAT-3": 2} {
+		"GROUP-R": 2, "IDX-1": 2, "IDX-3": 1, "MAT-2": 1, "ONE-W": 1, "STREAM-R": 5, "STREAM-W": 2, "TOK-R": 3, "TOK-W": 1, "TXT-1": 8, "USEMTL-R": 1, "ORD-2": 8, "MAT-3": 2, "ENTRY-1": 8, "SINK-1": 3, "NAME-2": 3} {
 		c.R.Floor(rule, n)
 	}
 }
